@@ -1,0 +1,24 @@
+//go:build verif
+
+package safequeue
+
+import "github.com/valinurovam/garagemq/amqp"
+
+// VerifItems returns the queued messages from head to tail (verification snapshot).
+func (queue *SafeQueue) VerifItems() []*amqp.Message {
+	queue.RLock()
+	defer queue.RUnlock()
+	out := make([]*amqp.Message, 0, queue.length)
+	for si, shard := range queue.shards {
+		start := 0
+		if si == queue.headIdx {
+			start = queue.headPos
+		}
+		for i := start; i < len(shard); i++ {
+			if shard[i] != nil {
+				out = append(out, shard[i])
+			}
+		}
+	}
+	return out
+}
